@@ -255,11 +255,12 @@ def deref(v):
 
 def copy_val(v):
     """value semantics for `copy`/`move` of aggregates"""
-    if isinstance(v, Adt):
+    t = type(v)
+    if t is Adt:
         return Adt(v.ty, v.variant, [copy_val(x) for x in v.f])
-    if isinstance(v, Tup):
+    if t is Tup:
         return Tup([copy_val(x) for x in v.f]) if v.f else v
-    if isinstance(v, list):
+    if t is list:
         return [copy_val(x) for x in v]
     return v
 
@@ -766,13 +767,13 @@ class Engine:
             f, b = cands[0]
             e = dict(b)
             e['Self'] = st
-            return ('fn', f, e)
+            return ('fn', f, Env(e))
         if len(cands) > 1:
             raise Unsupported(f'ambiguous impl for {txt}: {[c[0].name for c in cands]}')
         # default (provided) method of the trait
         dflt = s.lookup(traitname + '::' + method)
         if dflt is not None and dflt.kind == 'fn':
-            return ('fn', dflt, {'Self': st})
+            return ('fn', dflt, Env({'Self': st}))
         nat = s.find_native(name, txt)
         if nat:
             return nat
@@ -797,10 +798,22 @@ def _span_key(span):
     return re.sub(r'\s*\(#\d+\)$', '', span.strip())
 
 
+class Env(dict):
+    """generic-parameter bindings of a frame; immutable after creation, with a cached hashable key"""
+    __slots__ = ('key',)
+
+    def __init__(s, d):
+        dict.__init__(s, d)
+        s.key = tuple(sorted(d.items()))
+
+
 def _env_key(env):
     if not env:
         return None
-    return tuple(sorted(env.items()))
+    try:
+        return env.key
+    except AttributeError:
+        return tuple(sorted(env.items()))
 
 
 _SUBST_CACHE = {}
@@ -999,8 +1012,19 @@ class Compiler:
                     while len(f) <= idx:
                         f.append(None)
                     return Ref(f, idx)
+                def _fget(fr):
+                    bv = bget(fr)
+                    while type(bv) is Ref:
+                        bv = bv.c[bv.k]
+                    t = type(bv)
+                    if t is Adt or t is Tup or t is Closure:
+                        try:
+                            return bv.f[idx]
+                        except IndexError:
+                            return None
+                    return _ref(fr).get()
                 pl.ref = _ref
-                pl.get = lambda fr: _ref(fr).get()
+                pl.get = _fget
                 pl.set = lambda fr, v: _ref(fr).set(v)
                 return pl
             k = find_top(body, ' as ')
@@ -1151,6 +1175,9 @@ class Compiler:
             o = o[9:]
         if o.startswith('copy '):
             g = s.c_place(o[5:]).get
+            ty = s.place_type(o[5:]).strip()
+            if ty and (int_info(ty) is not None or ty.startswith(('&', '*', 'fn(')) or ty in ('()', 'f32', 'f64')):
+                return g
             return lambda fr: copy_val(g(fr))
         if o.startswith('move '):
             return s.c_place(o[5:]).get
